@@ -17,6 +17,8 @@ R03.6 (= C06 R06.2) the frame number's UVARI forms are exact.   R03.7 the source
 R03.8 (= C11 R11.3) every chunk-filling load_chunk reads the rows of the data set itself, so the declared cast is the
       one numpy applies on assignment into the chunk field - for every source kind alike.
 Not decided: bit-exact preservation through numpy's cast / copy, memory layouts inside numpy, what a reader decodes.
+R03.9 (shared, = C02 R02.1/2/4/5 + C10 R10.1-3) the transport below the records: segments partition each body in order with
+      correct bracketing and padding, the output buffer and the byte writer hand on exactly those bytes.
 """
 
 from __future__ import annotations
@@ -49,6 +51,8 @@ def run(chk):
     chk.guard(r03_6_frame_number_encoding, chk)
     chk.guard(r03_7_fresh_wrapper, chk)
     chk.guard(r03_8_one_conversion, chk)
+    from ._layout import transport_integrity
+    chk.guard(transport_integrity, chk, "R03.9")
 
 
 def r03_8_one_conversion(chk):
